@@ -65,6 +65,7 @@ extern const fc_desc fc_params[]; extern const unsigned fc_params_n;
 extern const fc_desc fc_ww[]; extern const unsigned fc_ww_n;
 extern const fc_desc fc_rng[]; extern const unsigned fc_rng_n;
 extern const fc_desc fc_util[]; extern const unsigned fc_util_n;
+extern const fc_desc fc_sm[]; extern const unsigned fc_sm_n;
 extern const fc_desc fc_other[]; extern const unsigned fc_other_n;
 extern const fc_desc fc_der[]; extern const unsigned fc_der_n;
 
